@@ -697,7 +697,35 @@ func (f *Frame) evalSliceExpr(x *ast.SliceExpr, st *State) Val {
 				return f.sliceOfArrayCell(c, b, lo, x, st)
 			}
 		}
-		// non-addressable / field arrays: read-only snapshot view
+		// an array FIELD of an addressable struct variable (d.Signer[:] with d a local or *p):
+		// the slice aliases the field -- writes through it are synchronised back when the struct is
+		// loaded (Interp.fieldViews)
+		if sel, ok := ast.Unparen(x.X).(*ast.SelectorExpr); ok {
+			if s, ok := f.pkg.TypesInfo.Selections[sel]; ok && s.Kind() == types.FieldVal && len(s.Index()) == 1 {
+				var sc *Cell
+				if id, ok := ast.Unparen(sel.X).(*ast.Ident); ok {
+					if pv, isPtr := f.evalExpr(sel.X, st).(PtrV); isPtr {
+						sc = pv.To
+					} else {
+						sc = f.cellOf(f.pkg.TypesInfo.ObjectOf(id))
+					}
+				}
+				if sc != nil {
+					if _, isStruct := in.load(st, sc, f).(StructV); isStruct {
+						n := IntLit(b.N)
+						if x.High != nil {
+							hi = f.evalExpr(x.High, st).(Sc).T
+						} else {
+							hi = n
+						}
+						f.safe(st, "slice", x.Pos(), And(Le(IntLit(0), lo), Le(lo, hi), Le(hi, n)))
+						reg := in.fieldViewCell(sc, s.Index()[0], b, bt.Underlying().(*types.Array).Elem(), st)
+						return SliceV{Reg: reg, Off: lo, Len: Sub(hi, lo), Cap: Sub(n, lo), Nil: TFalse}
+					}
+				}
+			}
+		}
+		// non-addressable arrays: read-only snapshot view
 		n := IntLit(b.N)
 		if x.High != nil {
 			hi = f.evalExpr(x.High, st).(Sc).T
